@@ -3,7 +3,7 @@
    (lexer -> token stream -> parser -> transforms), proofs in proofs/GenExamples.v. *)
 From Coq Require Import List NArith Bool Arith.
 Import ListNotations.
-From PV Require Import Regex Base LexTables NodeModel ParserBase ParserDecl ParserMain Api GenExamples ParserTables GenTables CSpec TableProofs Generator ParamProofs GenParam ClimbProofs GenParen GenBinop ParserBase ParserMain StreamLib RoundTrip.
+From PV Require Import Regex Base LexTables NodeModel ParserBase ParserDecl ParserMain Api GenExamples ParserTables GenTables CSpec TableProofs Generator ParamProofs GenParam ClimbProofs GenParen GenBinop ParserBase ParserMain StreamLib RoundTrip RoundTripGen RoundTripX GenExpr.
 
 (* parse . generate . parse = parse and second generation = first (default configuration) *)
 Theorem C07_roundtrip_decls :
@@ -129,3 +129,34 @@ Example C07_roundtrip_hypotheses_satisfiable :
   ops_known ex_tree /\ Spell nat ex_toks (kv false ex_tree) /\ Up nat ex_state (ex_toks ++ [mkTok nat K_SEMI (s2l ";") 8%nat]) /\
   estop K_SEMI = true /\ print false ex_tree = s2l "(a + b) * c".
 Proof. exact roundtrip_hypotheses_satisfiable. Qed.
+
+(* The same for a larger expression language [ex]: identifiers, binary operators, the prefix operators - + ! ~ * &,
+   subscripts, member accesses (. and ->), the conditional operator and all (compound) assignments, nested in any way
+   and to any depth.  [xt rp e] is the token sequence of the generated text, with operands parenthesised exactly as
+   visit_BinaryOp / visit_UnaryOp / visit_ArrayRef / visit_StructRef / visit_TernaryOp / visit_Assignment do.
+   Parser side: whenever the whole-parser model finds these tokens followed by a token that cannot continue an
+   expression, p_expression returns exactly e (coordinates erased) and has consumed exactly these tokens. *)
+Theorem C07_parse_of_generated_expression : forall (P: Type) rp (e: ex), wf e ->
+  forall (s: ParserBase.pstate P) le stop l0, Spell P le (xt rp e) -> Up P s (le ++ stop :: l0) -> estop (tk stop) = true ->
+  exists f0 N s', (forall f, (f0 <= f)%nat -> p_expression P f s = Ok (N, s')) /\ Up P s' (stop :: l0) /\ strip N = embx e.
+Proof. exact parse_of_generated_expression. Qed.
+Print Assumptions C07_parse_of_generated_expression.
+
+(* generator side: the generator MODEL prints [ptext rp e] for every such expression and leaves the indentation alone *)
+Theorem C07_generator_prints_expression : forall (C: Type) rp (e: ex), wf e -> forall fuel st, (3 * size e <= fuel)%nat ->
+  visit C rp fuel (embC C e) st = GOk (ptext rp e, st).
+Proof. exact visit_prints_x. Qed.
+Print Assumptions C07_generator_prints_expression.
+
+(* ... and that text, blanks removed, is the concatenation of the spellings of the tokens [xt rp e] *)
+Theorem C07_expression_text_is_its_tokens : forall rp (e: ex), wf e -> ids_nb e -> despace (ptext rp e) = spell (xt rp e).
+Proof. exact ptext_tokens. Qed.
+Print Assumptions C07_expression_text_is_its_tokens.
+
+(* non-vacuity: a[i].f = -b * (c ? d : e) *)
+Example C07_expression_example :
+  wf ex_x /\ ids_nb ex_x /\
+  visit nat false 40 (embC nat ex_x) Z0 = GOk (s2l "a[i].f = (-b) * ((c) ? (d) : (e))", Z0) /\
+  map fst (xt false ex_x) = [K_ID; K_LBRACKET; K_ID; K_RBRACKET; K_PERIOD; K_ID; K_EQUALS; K_LPAREN; K_MINUS; K_ID; K_RPAREN; K_TIMES;
+                             K_LPAREN; K_LPAREN; K_ID; K_RPAREN; K_CONDOP; K_LPAREN; K_ID; K_RPAREN; K_COLON; K_LPAREN; K_ID; K_RPAREN; K_RPAREN].
+Proof. exact expression_example. Qed.
